@@ -73,6 +73,7 @@ type genState struct {
 	scaleW   []int
 	gasCutP  float64
 	started  bool
+	noIGP    bool // scenario generators that need a known-good destination avoid the fee-charging Hyperlane token
 }
 
 func newGen(r *Rng, prof *Profile) *genState {
@@ -267,7 +268,7 @@ func (g *genState) genRoute(s *Sim, p *MPayload, denom string) {
 		route = 2
 	}
 	if route == 1 {
-		if _, ok := s.Env.HypTokens[denom]; !ok && denom != DenomOther {
+		if _, ok := s.Env.HypTokens[denom]; (!ok && denom != DenomOther) || (g.noIGP && denom == DenomOther) {
 			route = 2
 		}
 	}
